@@ -55,14 +55,21 @@ def sibling_config(cfg, rng):
 
 
 def gen_case(rng, i):
-    opts = {"n_markets": rng.choice([2, 3]), "index": True, "fcn": True, "n_normal": rng.choice([2, 4]),
+    opts = {"n_markets": 5 if i % 6 == 5 else rng.choice([2, 3]), "index": True, "fcn": True, "n_normal": rng.choice([2, 4]),
             "n_hft": rng.choice([1, 2]), "steps": rng.choice([8, 15, 110 if i % 4 == 0 else 12]), "n_sessions": rng.choice([2, 3])}
     cfg = rc.gen_config(rng, opts=opts)
     mk = [m for m in cfg["simulation"]["markets"] if m.startswith("M")]
     for nm in mk:
         cfg[nm]["fundamentalVolatility"] = rng.choice([0.001, 0.01])
         cfg[nm]["outstandingShares"] = 25000
-    if i % 3 != 1:      # one case in three has uncorrelated fundamentals (its sibling run has correlated ones)
+    if i % 6 == 5 and len(mk) >= 5:
+        # a consistent but *singular* correlation structure (a composite fully explained by four independent
+        # stocks; volatilities exactly representable so that the factorisation fails exactly): such a
+        # configuration is refused — identically in every environment
+        for nm in mk[:5]:
+            cfg[nm]["fundamentalVolatility"] = 2.0 ** -10
+        cfg["simulation"]["fundamentalCorrelations"] = {"pairwise": [[mk[k], mk[4], 0.5] for k in range(4)]}
+    elif i % 3 != 1:      # one case in three has uncorrelated fundamentals (its sibling run has correlated ones)
         cfg["simulation"]["fundamentalCorrelations"] = {"pairwise": [[mk[0], mk[1], rng.choice([0.3, -0.4, 0.7])]]}
     # built-in agents
     cfg["MMA"] = {"class": "ProbeMarketMakerAgent", "numAgents": 1, "markets": [mk[0]], "assetVolume": 50, "cashAmount": 10000,
@@ -113,6 +120,7 @@ def run(ctx, model_available=True):
     n = 6 * (3 if ctx.tier == "thorough" else 1)
     violations, diffs, samples = [], [], []
     seen, nontriv = set(), set()
+    os.makedirs(os.path.join(common.VERIF, "replays"), exist_ok=True)
     tmp = tempfile.mkdtemp(prefix="c07_", dir=os.path.join(common.VERIF, "replays"))
     jobs = []
     cases = []
